@@ -49,8 +49,19 @@ def expected_accept(scn, base_content, edited, now_lt_expiry):
 
 
 def gen_case(rng, root, family, tier):
+    owners = None
+    if W.gpg_available() and rng.random() < 0.15:
+        # gpg verifier keys (a master without / with signing subkeys, signed by the master itself or a subkey)
+        mname = rng.choice(["no_sub", "no_sub2", "one_sub", "two_subs"])
+        master = W.gpg_key(mname)
+        subs = [x for x in (master.pub.get("subkeys") or {}) if x in W.SIGNING_SUBKEYS]
+        owners = [master]
+        gpg_signer = W.gpg_key(mname, rng.choice(subs)) if subs and rng.random() < 0.5 else master
     ch = scen.gen_chain(rng, root, n_steps=rng.choice([1, 1, 2, 3]), n_insp=rng.choice([0, 0, 1, 2]),
-                        thresholds=(1,), max_funcs=2)
+                        thresholds=(1,), max_funcs=2, owners=owners)
+    if owners:
+        ch.layout_fmt = "metablock"
+        ch.layout_signers = [gpg_signer]
     desc = {"family": family, "layout_fmt": ch.layout_fmt, "owner_kinds": [k.kind for k in ch.owners]}
     now = datetime.datetime(2030, 6, 15, 12, 0, 0, tzinfo=datetime.timezone.utc)
     lt = True
